@@ -47,6 +47,9 @@ type scenario struct {
 	MaxBad    int      // non-ok answers offered per caller before only "ok" remains
 	Bound     int
 	Unlimited bool
+	Default   string // name of the answer given at cost 0 ("" = 200ok): models a server that keeps failing
+	Seed      int64  // != 0: the client's jitter source (math/rand) is re-seeded with it at the start of every execution, which then run one at a time
+	Prompt    bool   // the server answers each request the instant it arrives (requests that differ only by jitter are not merged)
 }
 
 type answer struct {
@@ -63,6 +66,7 @@ type answer struct {
 var menu = []answer{
 	{name: "200ok", status: 200, body: "ok"},
 	{name: "200badjson", status: 200, body: "badjson"},
+	{name: "200empty", status: 200, body: "empty"}, // a 200 without a body does not parse either
 	{name: "408", status: 408, body: "text"},
 	{name: "429", status: 429, body: "text"},
 	{name: "429ra2", status: 429, ra: "2", body: "text"},
@@ -193,6 +197,8 @@ func (g *gatedRT) RoundTrip(req *http.Request) (*http.Response, error) {
 		}
 	case "badjson":
 		b = `{"value": tru`
+	case "empty":
+		b = ""
 	}
 	if a.redir {
 		h.Set("Location", "/redirected?c="+c)
@@ -228,6 +234,9 @@ func runScenario(sc scenario) func(t *testing.T, x *gate.Exec) {
 	return func(t *testing.T, x *gate.Exec) {
 		env := gate.NewEnv()
 		rec := &recorder{}
+		if sc.Seed != 0 {
+			rand.Seed(sc.Seed)
+		}
 		rt := &gatedRT{env: env, rec: rec, api: sc.API}
 		hc := &http.Client{Transport: rt}
 		var jc *jsonclient.JSONClient
@@ -313,8 +322,8 @@ func runScenario(sc scenario) func(t *testing.T, x *gate.Exec) {
 			if allDone() && len(pend) == 0 {
 				break
 			}
-			if steps > 60 {
-				x.Violation("horizon", "scenario did not finish within 60 decision points")
+			if steps > 60+8*sc.MaxBad*sc.Callers {
+				x.Violation("horizon", "scenario did not finish within %d decision points", 60+8*sc.MaxBad*sc.Callers)
 				break
 			}
 			type act struct {
@@ -328,6 +337,15 @@ func runScenario(sc scenario) func(t *testing.T, x *gate.Exec) {
 				m := menu
 				if info.method != http.MethodPost || c == nil || c.bad >= sc.MaxBad {
 					m = menu[:1]
+				} else if sc.Default != "" {
+					m = nil
+					for _, a := range menu {
+						if a.name == sc.Default {
+							m = append([]answer{a}, m...)
+						} else {
+							m = append(m, a)
+						}
+					}
 				}
 				for ai, a := range m {
 					cost := 0
@@ -347,7 +365,11 @@ func runScenario(sc scenario) func(t *testing.T, x *gate.Exec) {
 			}
 			if len(pend) == 0 {
 				acts = append(acts, act{gate.Alt{Label: "tick", Cost: 0}, func() {
-					if !env.WaitActivity(1000*time.Second, 300*time.Millisecond) {
+					settle := 300 * time.Millisecond
+					if sc.Prompt {
+						settle = 0
+					}
+					if !env.WaitActivity(1000*time.Second, settle) {
 						stuck = true
 					}
 				}})
@@ -398,7 +420,7 @@ const jitter = 250 * time.Millisecond
 const cap128 = 128 * time.Second
 
 func retryable(a *answer) bool {
-	return a.neterr || a.viaGET || (a.status == 200 && a.body == "badjson") || a.status == 408 || a.status == 429 || a.status == 503 || a.redir
+	return a.neterr || a.viaGET || (a.status == 200 && (a.body == "badjson" || a.body == "empty")) || a.status == 408 || a.status == 429 || a.status == 503 || a.redir
 }
 
 func oracle(sc scenario, x *gate.Exec, rec *recorder, callers []*caller) {
@@ -590,12 +612,32 @@ func TestCheck(t *testing.T) {
 		{Name: "2 callers sharing a client, json", API: "json", Callers: 2, Ctx: []string{"cancel", "none"}, MaxBad: k - 1, Bound: b2},
 		{Name: "2 callers sharing a LogClient, one with deadline", API: "logclient", Callers: 2, Ctx: []string{"deadline10s", "cancel"}, MaxBad: k - 1, Bound: b2},
 	}
-	r.Rule("for each scenario, every choice vector of total deviation cost <= bound (a deviation = answering a pending request other than the canonically first, any answer other than a parsable 200 out of a 15-answer menu, a slow server, a cancellation at one of 4 instants); executions run to completion under virtual time. distinct_nontrivial = distinct observed outcomes (per-caller answer sequence and result)")
+	// a server that keeps failing: the exponential window reaches its 128 s cap, and callers sharing
+	// the client keep being woken by each other's failures (an infinite response sequence cut at
+	// MaxBad answers per caller)
+	kb, bb := 11, 1
+	if th {
+		kb, bb = 13, 2
+	}
+	scs = append(scs,
+		scenario{Name: "1 caller, json, server keeps answering 503", API: "json", Callers: 1, Ctx: []string{"cancel"}, MaxBad: kb, Bound: bb, Default: "503"},
+		scenario{Name: "2 callers sharing a client, server keeps answering 503", API: "json", Callers: 2, Ctx: []string{"none", "none"}, MaxBad: kb, Bound: bb, Default: "503"},
+		scenario{Name: "2 callers sharing a LogClient, network keeps failing", API: "logclient", Callers: 2, Ctx: []string{"none", "none"}, MaxBad: kb, Bound: bb - 1 + 1, Default: "neterr"},
+		// the same with a server that answers at once: the caller whose jitter is smaller is answered
+		// before the others wake (which caller that is, is not owned; the bound must hold for either)
+		scenario{Name: "2 callers sharing a client, prompt server keeps answering 503", API: "json", Callers: 2, Ctx: []string{"none", "none"}, MaxBad: kb, Bound: bb - 1, Default: "503", Prompt: true, Seed: 1},
+		scenario{Name: "2 callers sharing a client, prompt server keeps answering 503, other jitter", API: "json", Callers: 2, Ctx: []string{"none", "none"}, MaxBad: kb, Bound: bb - 1, Default: "503", Prompt: true, Seed: 7},
+		scenario{Name: "3 callers sharing a LogClient, prompt server, network keeps failing", API: "logclient", Callers: 3, Ctx: []string{"none", "none", "none"}, MaxBad: kb - 2, Bound: bb - 1, Default: "neterr", Prompt: true, Seed: 3},
+		scenario{Name: "3 callers sharing a client, server keeps answering 429", API: "json", Callers: 3, Ctx: []string{"none", "none", "none"}, MaxBad: kb - 2, Bound: bb - 1, Default: "429"})
+	r.Rule("for each scenario, every choice vector of total deviation cost <= bound (a deviation = answering a pending request other than the canonically first, any answer other than a parsable 200 out of a 18-answer menu, a slow server, a cancellation at one of 4 instants); executions run to completion under virtual time. distinct_nontrivial = distinct observed outcomes (per-caller answer sequence and result)")
 	r.Assume("client jitter (math/rand, 0..249 ms) is not owned: oracles use only the bounds the property states; requests arriving within 300 ms of each other are presented together",
 		"interleavings are explored at the granularity of HTTP round trips; lock-level interleavings inside the shared backoff are covered by the free-running race pass")
 	var summary []map[string]any
 	for _, sc := range scs {
 		ex := &gate.Explorer{Name: sc.Name, Bound: sc.Bound, Run: runScenario(sc), Stop: r.Expired}
+		if sc.Seed != 0 {
+			ex.Workers = 1
+		}
 		ex.OnViolation = func(v gate.Violation, picks []gate.Pick, trace []string) {
 			r.Violation(v.Sig, sc.Name+": "+v.Desc, map[string]any{"scenario": sc, "choices": picks, "trace": trace})
 		}
